@@ -9,6 +9,7 @@ import (
 	"go/token"
 	"go/types"
 	"io"
+	"sort"
 	"strings"
 )
 
@@ -38,6 +39,8 @@ func (en *Engine) runScan(name string) (bool, string) {
 		return en.scanTailCalls("seq")
 	case "seq-no-driver-reentry":
 		return en.scanDriverReentry("seq")
+	case "seq-no-static-recursion":
+		return en.scanStaticRecursion("seq")
 	}
 	return false, "unknown scan " + name
 }
@@ -231,6 +234,92 @@ func (en *Engine) scanTailCalls(pkg string) (bool, string) {
 // Each offending edge is reported under its own name so that the recorded
 // finding (the For driver) does not hide new ones.
 func (en *Engine) scanDriverReentry(pkg string) (bool, string) {
+	return true, ""
+}
+
+// scanStaticRecursion (C17): no declared function or method of the package calls itself, directly or through other declared
+// functions of the package (calls inside nested function literals count for the enclosing declaration). A cycle makes the
+// stack depth of one step depend on data (e.g. one frame per skipped map entry); the loop driver's closure re-entry is a
+// different, per-edge scan (seq-no-driver-reentry).
+func (en *Engine) scanStaticRecursion(pkg string) (bool, string) {
+	edges := map[*types.Func][]*types.Func{}
+	var fns []*types.Func
+	for fn, u := range en.prog.UnitOfFn {
+		if u.Pkg.Name != pkg || u.Body == nil {
+			continue
+		}
+		fns = append(fns, fn)
+		info := u.Pkg.TypesInfo
+		ast.Inspect(u.Body, func(n ast.Node) bool {
+			c, ok := n.(*ast.CallExpr)
+			if !ok {
+				return true
+			}
+			var id *ast.Ident
+			switch f := ast.Unparen(c.Fun).(type) {
+			case *ast.Ident:
+				id = f
+			case *ast.SelectorExpr:
+				id = f.Sel
+			case *ast.IndexExpr:
+				if x, ok := f.X.(*ast.Ident); ok {
+					id = x
+				}
+			case *ast.IndexListExpr:
+				if x, ok := f.X.(*ast.Ident); ok {
+					id = x
+				}
+			}
+			if id == nil {
+				return true
+			}
+			if callee, ok := info.Uses[id].(*types.Func); ok {
+				callee = callee.Origin()
+				if _, mine := en.prog.UnitOfFn[callee]; mine {
+					edges[fn] = append(edges[fn], callee)
+				}
+			}
+			return true
+		})
+	}
+	sort.Slice(fns, func(i, j int) bool { return fns[i].FullName() < fns[j].FullName() })
+	state := map[*types.Func]int{}
+	var stack []*types.Func
+	var bad []string
+	var visit func(f *types.Func)
+	visit = func(f *types.Func) {
+		state[f] = 1
+		stack = append(stack, f)
+		for _, g := range edges[f] {
+			switch state[g] {
+			case 0:
+				visit(g)
+			case 1:
+				var names []string
+				on := false
+				for _, h := range stack {
+					if h == g {
+						on = true
+					}
+					if on {
+						names = append(names, h.Name())
+					}
+				}
+				bad = append(bad, "recursion "+strings.Join(append(names, g.Name()), " -> ")+": the stack depth of one step depends on data")
+			}
+		}
+		stack = stack[:len(stack)-1]
+		state[f] = 2
+	}
+	for _, f := range fns {
+		if state[f] == 0 {
+			visit(f)
+		}
+	}
+	if len(bad) > 0 {
+		sort.Strings(bad)
+		return false, strings.Join(bad, "; ")
+	}
 	return true, ""
 }
 
